@@ -5,7 +5,7 @@ Property theorems over `Pywbem.Model.Assoc` (the model of pywbem_mock's Referenc
 Associators / AssociatorNames, instance and class level).  All theorems quantify over arbitrary
 repositories, sources and filters.
 -/
-import Proofs.Lemmas.AssocSpec
+import Proofs.Lemmas.AssocStore
 
 namespace C13
 open Pywbem.Proto Pywbem.Model.Assoc
@@ -533,7 +533,20 @@ theorem C13_class_filter_complete {cs : List Cls} {fn c : Name} (hne : fn.isEmpt
 theorem C13_create_writes_shadows {sv sv' : Server} {ns : Name} {a : Inst}
     (h : createAssoc sv ns a = .ok sv') :
     ∀ n ∈ otherNamespaces a ns ++ [ns], ∃ T, findNs sv'.repo n = some T ∧
-      ∃ a' ∈ T.insts, a'.cls = a.cls ∧ a'.props = a.props ∧ a'.path.key = a.path.key := by
+      ∃ a' ∈ T.insts, a'.cls = a.cls ∧ a'.props = a.props ∧ a'.path.key = a.path.key :=
+  create_writes_shadows h
+
+/-- **a created association is traversable from every end**: after a successful CreateInstance of an
+    association instance, for any two reference properties `p`, `q` of it with values `x ≢ y`, the
+    namespace named by `x` exists and (if the class of `x` is known there) AssociatorNames of `x` in that
+    namespace returns `y` — in particular in both directions and across namespaces. -/
+theorem C13_created_association_traversable {sv sv' : Server} {ns : Name} {a : Inst}
+    (h : createAssoc sv ns a = .ok sv')
+    {p q : IProp} (hp : p ∈ a.props) (hq : q ∈ a.props) (hpr : p.isRef = true) (hqr : q.isRef = true)
+    {x y : Path} (hpx : p.value = some x) (hqy : q.value = some y) (hxy : y.eqv x = false) :
+    ∃ n T, x.ns = some n ∧ findNs sv'.repo n = some T ∧
+      (classExists T.classes x.cls = true → ∃ l, assocInstNames T x {} = .ok l ∧ y ∈ l) := by
+  have hsh := create_writes_shadows h
   unfold createAssoc at h
   cases hS : findNs sv.repo ns with
   | none => simp [hS] at h
@@ -543,26 +556,38 @@ theorem C13_create_writes_shadows {sv sv' : Server} {ns : Name} {a : Inst}
     · cases h
     · split at h
       · cases h
-      · split at h
+      · rename_i hhost
+        split at h
         · cases h
-        · split at h
-          · cases h
-          · rename_i hcls
-            split at h
-            · cases h
-            · cases h
-              intro n hn
-              have hall : ∀ k ∈ otherNamespaces a ns ++ [ns], ∃ T, findNs sv.repo k = some T := by
-                intro k hk
-                cases hk' : findNs sv.repo k with
-                | some T => exact ⟨T, rfl⟩
-                | none =>
-                  exfalso
-                  apply hcls
-                  simp only [List.any_eq_true]
-                  exact ⟨k, hk, by simp [hk']⟩
-              obtain ⟨T, hT, hmem⟩ := foldl_addInst_mem (a := a) _ sv.repo hall n hn
-              exact ⟨T, hT, rebase a n, hmem, rfl, rfl, rfl⟩
+        · rename_i hends
+          have hxmem : x ∈ a.props.filterMap (fun p => if p.isRef then p.value else none) := by
+            rw [List.mem_filterMap]; exact ⟨p, hp, by simp [hpr, hpx]⟩
+          have hxns : ∃ n, x.ns = some n := by
+            cases hn : x.ns with
+            | some n => exact ⟨n, rfl⟩
+            | none =>
+              exfalso; apply hends
+              simp only [List.any_eq_true]
+              exact ⟨x, hxmem, by simp [hn]⟩
+          obtain ⟨n, hn⟩ := hxns
+          obtain ⟨m, hm, hmn⟩ := end_namespace_covered (target := ns) hp hpr hpx hn
+          obtain ⟨T, hT, a', ha', hcls, hprops, _⟩ := hsh m hm
+          refine ⟨n, T, hn, by rw [← findNs_congr hmn]; exact hT, ?_⟩
+          intro hce
+          have hok := assocInstNames_eq_ok (S := T) (x := x) (f := {}) (by simp [filterClassOk]) (by simp [filterClassOk]) hce
+          refine ⟨_, hok, ?_⟩
+          rw [mem_assocInstNames hok]
+          refine ⟨a', ha', ⟨p, hprops ▸ hp, ?_⟩, q, hprops ▸ hq, ?_⟩
+          · rw [refPropHit_iff]
+            exact ⟨hpr, ⟨x, hpx, eqv_refl x⟩, by simp [classAdmits, truthy], by simp [roleAdmits, lcOpt]⟩
+          · rw [otherEnd_iff]
+            exact ⟨hqr, hqy, hxy, by simp [classAdmits, truthy], by simp [roleAdmits, lcOpt]⟩
+
+/-- storing keeps the instance store a well-formed dict (the hypothesis `StoreOk` of the Names = full
+    theorems): appending an instance whose path is not yet a key preserves "keys unique, no host". -/
+theorem C13_add_preserves_store_ok {is : List Inst} {a : Inst} {n : Name}
+    (hok : StoreOk is) (hnew : findInst is (rebase a n).path = none) : StoreOk (is ++ [rebase a n]) :=
+  storeOk_append hok hnew
 
 /-! ## 10. non-vacuity and negation witnesses (closed instances, checked by evaluation) -/
 
